@@ -864,3 +864,90 @@ def canon_event(ev):
     if n == "LogUrlEvent":
         return dict(base, e="url", url=ev.url, desc=ev.url_description)
     raise TypeError(n)
+
+
+# ------------------------------------------------------------------------------------------------
+# shrinking
+# ------------------------------------------------------------------------------------------------
+
+def _paths(x, pre=()):
+    """paths of all lists and strings inside a desc"""
+    if isinstance(x, dict):
+        for k, v in x.items():
+            if not k.startswith("_"):
+                yield from _paths(v, pre + (k,))
+    elif isinstance(x, list):
+        yield ("list", pre)
+        for i, v in enumerate(x):
+            yield from _paths(v, pre + (i,))
+    elif isinstance(x, str):
+        yield ("str", pre)
+
+
+def _get(x, path):
+    for p in path:
+        x = x[p]
+    return x
+
+
+def _set(x, path, v):
+    for p in path[:-1]:
+        x = x[p]
+    x[path[-1]] = v
+
+
+_ENUM_KEYS = {"k", "e", "level", "status"}
+
+
+def shrink_desc(d):
+    """smaller variants of a report description (or of any JSON-able structure made of them): drop one list
+    element, drop an optional result, replace a string by a plain one — sibling names stay distinct."""
+    d = strip_private(d) if isinstance(d, dict) else d
+    items = list(_paths(d))
+    # biggest cuts first
+    for kind, path in items:
+        if kind == "list":
+            lst = _get(d, path)
+            if path and path[-1] in ("props", "info", "links") or (len(path) >= 2 and path[-2] in ("props", "info", "links")):
+                if path[-1] in ("props", "info", "links"):
+                    for i in range(len(lst)):
+                        c = copy.deepcopy(d)
+                        del _get(c, path)[i]
+                        yield c
+                continue
+            for i in range(len(lst)):
+                c = copy.deepcopy(d)
+                del _get(c, path)[i]
+                yield c
+    for key in ("setup", "teardown"):
+        for kind, path in items:
+            pass
+    # optional results
+    def opt(x, pre=()):
+        if isinstance(x, dict):
+            for k, v in x.items():
+                if k in ("setup", "teardown") and v is not None:
+                    yield pre + (k,)
+                yield from opt(v, pre + (k,))
+        elif isinstance(x, list):
+            for i, v in enumerate(x):
+                yield from opt(v, pre + (i,))
+    for path in opt(d):
+        c = copy.deepcopy(d)
+        _set(c, path, None)
+        yield c
+    for kind, path in items:
+        if kind == "str" and path[-1] not in _ENUM_KEYS:
+            s = _get(d, path)
+            if path[-1] == "name" or (len(path) >= 2 and path[-2] in ("props", "info") and path[-1] == 0):
+                continue        # keep names / keys (sibling uniqueness)
+            if len(s) > 1:
+                for cand in {s[: len(s) // 2], s[len(s) // 2:], s[0], s[-1]}:
+                    if cand != s:
+                        c = copy.deepcopy(d)
+                        _set(c, path, cand)
+                        yield c
+            elif s not in ("a", ""):
+                c = copy.deepcopy(d)
+                _set(c, path, "a")
+                yield c
